@@ -8,10 +8,13 @@ combinations x weights in {None, given}:
             ddof); NF equality with the reference fit;
  R-FLAGS    with_mean=False gives zeros of length n_features, with_std=False the
             literal scale 1; each flag switches exactly its own statistic;
- NF-AFFINE  transform = (X - mean_) / scale_, inverse_transform = X scale_ + mean_,
+ NF-AFFINE  transform = (X - mean_) / scale_ in both copy modes (copy=True leaves the
+            caller's array alone), inverse_transform = X scale_ + mean_,
             and inverse_transform(transform(X)) normalises to X;
  R-ZEROVAR  on every path that sets scale_ = sqrt(.) the tolerance comparison with
-            its raise precedes it;
+            its raise precedes it, is the documented condition (also when tested
+            column by column), and the guarded statistic is not divided by a
+            quantity of the data that can vanish (0/0 passes every `<` guard);
  Shape      column-wise scale_ is (n_features,), otherwise scalar; transform on
             new data of any row count.
 Not decided: replication equivalence for integer weights and equality with
